@@ -190,7 +190,7 @@ pub proof fn lemma_roundtrip_VaultCommit(v: VaultCommitV, rest: Seq<u8>)
 //@  inject open spec fn enc_valid(v: VaultCommitV) -> bool { valid_VaultCommit(v) }
 //@  fn encode
 //@    hint start : proof { reveal(enc_VaultCommit); }
-//@    hint after "writer.write_bytes(self.0.as_ref())?;" : let ghost s1 = writer@;
+//@    hint before "let size_pos" : let ghost s1 = writer@;
 //@    hint before "Ok(()) }" : proof {
 //@      | let e = enc_VaultEntry(self.1@);
 //@      | lemma_backpatch(s1, le32(0), e, le32(e.len() as u32));
